@@ -955,6 +955,36 @@ cache_harness! {
 }
 
 // ------------------------------------------------------------------------------------------------
+// C12 (sequential slice): the real close() on an open cache, then a second close() and every other
+// operation. Natively close() blocks on the rendezvous stop channel until the worker takes the
+// signal; here the FIFO contract accepts it (= the worker took it), so the harness is Kani-only.
+// ------------------------------------------------------------------------------------------------
+#[cfg(kani)]
+cache_harness! {
+    [kani::unwind(6)]
+    fn c12_close_seq() {
+        let cfg = any_cfg();
+        let (p, a, b, _ents) = any_parked(TransparentKeyBuilder::<u64>::default(), 0, cfg, Some(true));
+        vassert!(p.cache.close().is_ok(), "close() on an open cache returns Ok");
+        vassert!(p.cache.is_closed.load(Ordering::SeqCst) && p.policy.is_closed.load(Ordering::SeqCst), "after close() cache and policy are marked closed");
+        // zero-sized messages: one clear signal, one stop signal per worker
+        vassert!(chan::clear_signals() == 3, "close() sends one clear signal and exactly one stop signal to each of the two workers");
+        vassert!(p.cache.close().is_ok(), "a second close() returns Ok");
+        vassert!(chan::clear_signals() == 3, "a second close() sends nothing (a second rendezvous send would block forever: the worker is gone)");
+        let k = nd::any_u64();
+        let n0 = p.cache.len();
+        vassert!(p.cache.get(&k).is_none() && p.cache.get_mut(&k).is_none(), "get / get_mut return nothing after close()");
+        vassert!(p.cache.try_remove(&k).is_ok(), "remove returns Ok after close()");
+        vassert!(p.cache.clear().is_ok(), "clear returns Ok after close()");
+        vassert!(p.cache.wait().is_ok(), "wait returns Ok after close() without blocking");
+        vassert!(p.cache.len() == n0 && p.cb.all() == 0, "operations after close() have no effect");
+        vassert!(chan::insert_buf_len() == 0 && chan::clear_signals() == 3, "operations after close() queue nothing");
+        vcover!(a.is_some() && b.is_some(), "two residents before the close");
+        std::mem::forget(p);
+    }
+}
+
+// ------------------------------------------------------------------------------------------------
 // C10: wait() (narrowed scope, DESIGN 6/C10 and 8): the blocking half is replaced by "run the
 // parked processor to quiescence, then the WaitGroup counter must be zero"
 // ------------------------------------------------------------------------------------------------
@@ -1184,6 +1214,12 @@ cache_harness! {
             use crate::verif_env::pushrec;
             vassert!(pushrec::batches() == 1 && pushrec::flat_len() == 1 && pushrec::flat(0) == k, "every lookup, hit or miss, is recorded toward that key's popularity");
         }
+        // natively (replay) the real push put the batch on the policy's queue
+        #[cfg(not(kani))]
+        {
+            let b = crate::policy::verif_harness::psync::worker_try_recv(&p.worker);
+            vassert!(b.map(|b| b.len() == 1 && b[0] == k).unwrap_or(false), "every lookup, hit or miss, is recorded toward that key's popularity");
+        }
         vassert!(mrec::get(&p.metrics, MetricType::Hit) + mrec::get(&p.metrics, MetricType::Miss) == 1, "hits + misses equals the number of lookups made on the open cache");
         vassert!(mrec::get(&p.metrics, MetricType::Hit) == hit as u64, "a lookup counts as a hit iff it returned a value");
         // closed cache: not recorded, not counted
@@ -1191,6 +1227,8 @@ cache_harness! {
         vassert!(p.cache.get(&k).is_none(), "a closed cache returns nothing");
         #[cfg(kani)]
         vassert!(crate::verif_env::pushrec::batches() == 1, "a lookup on a closed cache is not recorded");
+        #[cfg(not(kani))]
+        vassert!(crate::policy::verif_harness::psync::worker_try_recv(&p.worker).is_none(), "a lookup on a closed cache is not recorded");
         vassert!(mrec::get(&p.metrics, MetricType::Hit) + mrec::get(&p.metrics, MetricType::Miss) == 1, "a lookup on a closed cache is not counted");
         vcover!(hit && mutable, "get_mut hit");
         vcover!(!hit && a.is_some(), "miss next to a resident");
